@@ -139,6 +139,7 @@ type loopInfo struct {
 	pats    []*locPat
 	nextPre string
 	entered bool
+	rangeIdx *ssa.Alloc // the hidden index cell of a range-over-slice / counted loop
 }
 
 func (g *FnGen) fresh(hint, sort string) string {
@@ -537,6 +538,16 @@ func (g *FnGen) findLoops() {
 		hs = append(hs, h)
 	}
 	sort.Slice(hs, func(i, j int) bool { return hs[i].Index < hs[j].Index })
+	for _, h := range hs {
+		for _, ins := range h.Instrs {
+			if u, ok := ins.(*ssa.UnOp); ok {
+				if a, ok := u.X.(*ssa.Alloc); ok && a.Comment == "rangeindex" {
+					g.loops[h].rangeIdx = a
+					break
+				}
+			}
+		}
+	}
 	for i, h := range hs {
 		g.loops[h].ordinal = i + 1
 		if g.fc != nil {
@@ -772,6 +783,7 @@ func (g *FnGen) loopHead(s *State, li *loopInfo) {
 	}
 	// init
 	env := g.newEnv(s, g.entry)
+	env.loop = li
 	for i, inv := range li.lc.Invariants {
 		for j, c := range env.conjuncts(inv.E) {
 			g.addObl(s, "inv-init", fmt.Sprintf("inv-init[%d.%s]", li.ordinal, clauseID(inv, i, j)), inv.Src, inv.Where, c)
@@ -832,6 +844,7 @@ func (g *FnGen) loopHead(s *State, li *loopInfo) {
 	}
 	sort.Strings(hl)
 	fenv := g.newEnv(pre, g.entry)
+	fenv.loop = li
 	li.entered = true
 	li.nextPre = pre.next
 	if li.lc.HasMod {
@@ -843,7 +856,13 @@ func (g *FnGen) loopHead(s *State, li *loopInfo) {
 		s.heaps[k] = n
 		// no modifies clause = modifies nothing visible: only objects allocated since the loop was entered may change
 		_ = hasMod
-		tinv = append(tinv, g.frameAxiom(fenv, mods, k, old, n, pre.next))
+		// with an explicit `loop k modifies` only what it names (or what the loop allocates) may change;
+		// otherwise the function's frame applies: anything allocated by this activation may change
+		bound := "next!0"
+		if li.lc.HasMod {
+			bound = pre.next
+		}
+		tinv = append(tinv, g.frameAxiom(fenv, mods, k, old, n, bound))
 	}
 	for name := range ghostsMod {
 		gd := g.c.ghosts[name]
@@ -851,6 +870,7 @@ func (g *FnGen) loopHead(s *State, li *loopInfo) {
 	}
 	g.assume(s, and(tinv...))
 	env = g.newEnv(s, g.entry)
+	env.loop = li
 	var is []string
 	for _, inv := range li.lc.Invariants {
 		is = append(is, env.boolExpr(inv.E))
@@ -899,6 +919,9 @@ func (g *FnGen) scanEffects(ins ssa.Instruction, assigned map[*ssa.Alloc]bool, h
 		com := x.Common()
 		if b, ok := com.Value.(*ssa.Builtin); ok {
 			if b.Name() == "append" || b.Name() == "copy" {
+				if g.c.reg.sortOf(com.Args[0].Type()) == "Str" {
+					return
+				}
 				*allocs = true
 				g.cellSorts(com.Args[0].Type().Underlying().(*types.Slice).Elem(), heapSorts)
 			}
@@ -1013,6 +1036,7 @@ func (g *FnGen) flow(s *State, from, to *ssa.BasicBlock, edges map[edge]*State) 
 	if g.isBackEdge(from, to) {
 		li := g.loops[to]
 		env := g.newEnv(s, g.entry)
+		env.loop = li
 		for i, inv := range li.lc.Invariants {
 			for j, c := range env.conjuncts(inv.E) {
 				g.addObl(s, "inv-pres", fmt.Sprintf("inv-pres[%d.%s]@b%d", li.ordinal, clauseID(inv, i, j), from.Index), inv.Src, inv.Where, c)
